@@ -472,9 +472,9 @@ def checkVarOrigin (st : CState) (fn : FnCall) (d : VarDecl) : Outcome CState :=
   let st1 : Outcome CState :=
     if isOriginBuiltin fn.name then
       let st' := { st with fnRes := (fn.callerRange, fn.name) :: st.fnRes }
-      match d.type with
-      | none => .panic "checkVarOrigin:nil Type"
-      | some (_, t) => assertHasType st' (d.name.map (·.1)) (builtinReturn fn.name) t
+      match d.type, d.name with
+      | some (_, t), some (nr, _) => assertHasType st' (some nr) (builtinReturn fn.name) t
+      | _, _ => .ok st'
     else .ok st
   match st1 with
   | .panic s => .panic s
